@@ -208,7 +208,7 @@ func TestTransportWideNumbersGapFree(t *testing.T) {
 				}
 			}
 		}
-		for w, l := range perWriter {
+		for _, l := range perWriter {
 			byOrder := map[int]uint16{}
 			for _, e := range l {
 				byOrder[e.order] = e.number
@@ -220,9 +220,9 @@ func TestTransportWideNumbersGapFree(t *testing.T) {
 				if !ok {
 					continue
 				}
-				if prevSet && (num == prev || num-prev >= 1<<15) {
-					t.Fatalf("writer %d: packet %d got number %d after number %d: not increasing", w, k, num, prev)
-				}
+				// (with several writers nothing is asserted about the distance between two numbers of one writer: the others may
+				// allocate any amount in between when this one is descheduled - more than 2^15 was observed on a loaded machine;
+				// uniqueness and gap-freedom are decided on the multiset below)
 				if prevSet && nWriters == 1 && num != prev+1 {
 					t.Fatalf("single writer: packet %d got number %d after number %d: not consecutive", k, num, prev)
 				}
